@@ -1,4 +1,6 @@
 import FrappyProofs.Lemmas.Match
+import FrappyProofs.Lemmas.Timed
+import FrappyProofs.Lemmas.Shutdown
 import FrappyModel.Generated.C11
 /-
 C11 — property theorems (nothing but property theorems and their non-vacuity examples).
@@ -90,7 +92,7 @@ def rd (sp : String) : Req String := ⟨"read", some sp⟩
 arrives; the rx thread tries it on key `None` and hands it to the caller. -/
 def traceF21 : List (Label String) :=
   [.put ⟨"xyz", some "m:p"⟩, .txGet, .txTest false, .txApply, .txSend,
-   .peerEmit false "update" (some "x:y") false none, .rxRead, .rxMatch (some 0), .rxSetEvent]
+   .peerEmit false "update" (some "x:y") false none, .rxRead, .rxMatch (some 0) [], .rxSetEvent]
 
 theorem reply_matches_fails : ¬ reply_matches_statement request2reply := by
   intro h
@@ -108,7 +110,7 @@ def reply_fresh_statement (tbl : List (String × String)) : Prop :=
 
 def traceStale : List (Label String) :=
   [.put (rd "m:p"), .txGet, .txTest false, .txApply,
-   .peerEmit false "reply" (some "m:p") false none, .rxRead, .rxMatch (some 0), .rxSetEvent]
+   .peerEmit false "reply" (some "m:p") false none, .rxRead, .rxMatch (some 0) [], .rxSetEvent]
 
 theorem reply_fresh_fails : ¬ reply_fresh_statement request2reply := by
   intro h
@@ -123,7 +125,7 @@ the rx thread handles the reply of the first one (pop, requeue nothing), then th
 parked with its key free. -/
 def traceF19 : List (Label String) :=
   [.put (rd "m:p"), .put (rd "m:p"), .txGet, .txTest false, .txApply, .txSend, .txGet, .txTest true,
-   .peerEmit false "reply" (some "m:p") false (some 0), .rxRead, .rxMatch (some 0), .rxSetEvent, .txApply]
+   .peerEmit false "reply" (some "m:p") false (some 0), .rxRead, .rxMatch (some 0) [], .rxSetEvent, .txApply]
 
 theorem no_parking_unlocked_fails :
     ∃ s : St String, Reachable request2reply false s ∧ ¬ NoParking request2reply s := by
@@ -138,29 +140,25 @@ theorem no_parking_unlocked_fails :
 theorem traceF19_refused : refusedAt request2reply true traceF19 = some 10 := by
   decide +kernel
 
-/-! ## disconnect_releases_all (statement only) -/
+/-! ## disconnect_releases_all -/
 
 section
 variable {α : Type} [DecidableEq α]
 
-/-- the actions of one `disconnect()` that runs alone: flag, drain `txq`, pop `active_requests`, drain `pending`,
-setting every event on the way -/
-def drainLabels (s : St α) : List (Label α) :=
-  .closeBegin :: (s.txq.flatMap (fun e => [.closeTxq, .closeSet e.id])
-    ++ (s.active.flatMap (fun p => [.closeActive, .closeSet p.2.id])
-    ++ s.pending.flatMap (fun e => [.closePending, .closeSet e.id])))
-
-/-- From every reachable state in which the tx thread does not hold the lock and no other `disconnect` is half way,
-a `disconnect()` can run to its end, and afterwards nothing is queued, filed or parked and every request that was has
-its event set.  NOT PROVED (kept as the statement); the monitors check `notReleased` on every recorded run. -/
-def disconnect_releases_all_statement (tbl : List (α × α)) : Prop :=
-  ∀ s : St α, Reachable tbl true s → s.txTest = none → s.relHold = [] →
+/-- From every reachable state in which the tx thread does not hold the request lock and no other `disconnect` is half
+way, a `disconnect()` that runs alone (`drainLabels`: flag, drain `txq`, pop every item of `active_requests`, drain
+`pending`, set every event) can run to its end — every one of its actions is enabled in turn — and afterwards nothing
+is queued, filed or parked and every request that was has its event set.  Interleavings of several concurrent
+`disconnect`s with running workers are covered by the monitors (`notReleased`), not by this theorem. -/
+theorem disconnect_releases_all (tbl : List (α × α)) (s : St α) (_h : Reachable tbl true s)
+    (ht : s.txTest = none) (hr : s.relHold = []) :
     ∃ s', run tbl true s (drainLabels s) 0 = .ok s' ∧
-      AllReleased s' ((s.txq ++ s.active.map (·.2) ++ s.pending).map (·.id))
+      AllReleased s' ((s.txq ++ s.active.map (·.2) ++ s.pending).map (·.id)) :=
+  drain_all s ht hr
 
 end
 
-/-- the statement holds on a concrete reachable state: one request filed and transmitted, one parked, one queued -/
+/-- non-vacuity: a concrete reachable state with one request filed and transmitted, one parked, one queued -/
 example : checkRun request2reply true
     [.put (rd "m:p"), .put (rd "m:p"), .put (rd "m:q"), .txGet, .txTest false, .txApply, .txSend, .txGet, .txTest true, .txApply]
     (fun s => match run request2reply true s (drainLabels s) 0 with
@@ -169,6 +167,119 @@ example : checkRun request2reply true
       | .error _ => false) = true := by
   decide +kernel
 
+/-! ## wait_bounded -/
+
+section
+open Frappy.Client.Timed
+variable {α : Type} [DecidableEq α]
+
+/-- No caller waits longer than its time-out.  In every reachable state of the timed model — any callers, any
+requests, any behaviour of the tx / rx / disconnecting threads and of the peer, any time steps that respect the
+callers' own timers (`tick` is not enabled past the deadline of a blocked caller: the fairness assumption, on the
+callers only) — every caller has returned or raised by `t_put + put time-out + reply time-out`, and a caller still
+inside `request()` is within that bound. -/
+theorem wait_bounded (cfg : Cfg) (tbl : List (α × α)) (s : TSt α) (h : TReachable cfg tbl s) :
+    WaitBounded cfg s := by
+  intro c hc
+  have hg := treachable_inv h c hc
+  unfold good at hg
+  cases hp : c.phase <;> simp only [hp] at hg ⊢ <;> omega
+
+/-- the untimed theorems hold along every timed run -/
+theorem timed_run_matches (cfg : Cfg) (tbl : List (α × α)) (hinj : TableInj tbl) (s : TSt α)
+    (h : TReachable cfg tbl s) :
+    ReplyMatchesKnown tbl s.base ∧ NoDoubleDelivery s.base ∧ NoParking tbl s.base :=
+  ⟨reply_matches_partial tbl hinj _ (treachable_base h), (no_double_delivery tbl hinj _ (treachable_base h)).1,
+   no_parking tbl hinj _ (treachable_base h)⟩
+
+end
+
+/-- the time-outs and the queue size of the repository -/
+def frappyCfg : Frappy.Client.Timed.Cfg := ⟨putTimeoutMs, waitTimeoutMs, queueSizes.headD 0⟩
+
+/-- the configured time-outs add up to 13 s -/
+theorem frappy_timeouts : frappyCfg.putMs + frappyCfg.waitMs = 13000 := by
+  have h1 : frappyCfg.putMs = 3000 := rfl
+  have h2 : frappyCfg.waitMs = 10000 := rfl
+  omega
+
+/-- every caller of the real configuration returns within 13 s of its call -/
+theorem wait_bounded_frappy (s : Frappy.Client.Timed.TSt String)
+    (h : Frappy.Client.Timed.TReachable frappyCfg request2reply s) :
+    ∀ c ∈ s.callers, match c.phase with
+      | .done tEnd _ => tEnd ≤ c.tPut + 13000
+      | _ => s.now ≤ c.tPut + 13000 := by
+  intro c hc
+  have hb := wait_bounded frappyCfg request2reply s h c hc
+  have h13 := frappy_timeouts
+  cases hp : c.phase <;> simp only [hp] at hb ⊢ <;> omega
+
+open Frappy.Client.Timed in
+/-- non-vacuity: caller 0 is answered after 200 ms; caller 1 (same key, parked) is never answered and times out
+exactly 10 s after its put; the clock cannot be advanced past that deadline while it is still waiting. -/
+example :
+    (match trun frappyCfg request2reply {} [
+        .begin 0 (rd "m:p"), .put 0, .tick 5, .begin 1 (rd "m:p"), .put 1,
+        .base .txGet, .base (.txTest false), .base .txApply, .base .txSend,
+        .base .txGet, .base (.txTest true), .base .txApply,
+        .tick 200, .base (.peerEmit false "reply" (some "m:p") false (some 0)), .base .rxRead,
+        .base (.rxMatch (some 0) [1]), .base .rxSetEvent, .wake 0, .base .rxRequeue,
+        .tick 9800] with
+      | some s => (s.callers.map (fun c => (c.cid, c.phase)) == [(1, .waiting 1 5), (0, .done 205 true)])
+                  && (tstep frappyCfg request2reply s (.tick 1)).isNone
+                  && (match tstep frappyCfg request2reply s (.timeout 1) with
+                      | some s' => s'.callers.map (fun c => (c.cid, c.phase)) == [(1, .done 10005 false), (0, .done 205 true)]
+                      | none => false)
+      | none => false) = true := by
+  decide +kernel
+
+/-! ## shutdown_terminates -/
+
+section
+open Frappy.Client.Shutdown
+
+/-- The join order is safe: in no reachable state of the shutdown protocol does the tx thread wait for the rx thread
+while the rx thread waits for the tx thread, and no worker ever waits for itself — any number of user threads calling
+`disconnect()`, the peer dropping the connection, failing sends, callers queueing requests, in any interleaving. -/
+theorem no_join_cycle (s : Sh) (h : Frappy.Client.Shutdown.Reachable s) : ¬ JoinCycle s ∧ ¬ SelfJoin s := by
+  have inv := Frappy.Client.Shutdown.reachable_inv h
+  constructor
+  · intro hc; exact inv.d ⟨Or.inl hc.1, Or.inr (Or.inl hc.2)⟩
+  · intro hc
+    rcases hc with hc | hc
+    · exact inv.c1.2.1 hc
+    · exact inv.c2.1 hc
+
+/-- The shutdown completes: from every reachable state in which a shutdown has been requested — by a user, by the
+peer (the rx thread sees the closed connection), by a failing send, or by several of them at once — some worker or
+disconnecting thread can take a step as long as not all of them have finished; there is no join cycle; and no step can
+raise, because every `join` / `shutdown` / `disconnect` is applied to the reference read at `d3` / `d7` / `d2`
+(the model has no other way to take these steps).
+Scope: the tx thread, the rx thread and the threads inside `disconnect()`; the reconnect thread and `connect()` are not
+part of this model (they are exercised by the harness only). -/
+theorem shutdown_terminates (s : Sh) (h : Frappy.Client.Shutdown.Reachable s) :
+    ShutdownProgress s ∧ ¬ JoinCycle s ∧ ¬ SelfJoin s :=
+  ⟨fun hr hnd => Frappy.Client.Shutdown.progress (Frappy.Client.Shutdown.reachable_inv h) hr hnd, (no_join_cycle s h).1, (no_join_cycle s h).2⟩
+
+/-- non-vacuity, user-initiated: a request is queued, a user calls `disconnect()`; the threads run to the end -/
+example : (Frappy.Client.Shutdown.run {} [.put, .tx false, .tx false, .userBegin]).map
+    (fun s => allDone (runGreedy 200 s) && !allDone s && !s.running) = some true := by
+  decide +kernel
+
+/-- peer-initiated: the peer drops the connection, the rx thread notices it and tears the client down -/
+example : (Frappy.Client.Shutdown.run {} [.put, .rx false, .drop, .rx true]).map
+    (fun s => allDone (runGreedy 200 s) && !allDone s && s.running) = some true := by
+  decide +kernel
+
+/-- both at once, plus a second user thread: while the rx thread (peer drop) is inside its `disconnect(False)` two
+users call `disconnect()` -/
+example : (Frappy.Client.Shutdown.run {} [.rx false, .drop, .rx true, .rx false, .rx false, .userBegin, .user .d1, .userBegin,
+      .rx false, .user .d2, .user .d3, .user .d4]).map
+    (fun s => allDone (runGreedy 300 s) && !allDone s) = some true := by
+  decide +kernel
+
+end
+
 /-! ### non-vacuity: a run with two equal-key requests, a parked one, an error reply and an update in between -/
 
 def traceGood : List (Label String) :=
@@ -176,10 +287,10 @@ def traceGood : List (Label String) :=
    .txGet, .txTest true, .txApply, .txGet, .txTest false, .txApply, .txSend,
    .peerEmit false "update" (some "m:p") true none, .peerEmit true "change" (some "m:q") false (some 2),
    .peerEmit false "reply" (some "m:p") false (some 0),
-   .rxRead, .rxMatch none, .rxRead, .rxMatch (some 2), .rxSetEvent, .rxRequeue,
-   .rxRead, .rxMatch (some 0), .rxSetEvent,
+   .rxRead, .rxMatch none [], .rxRead, .rxMatch (some 2) [1], .rxSetEvent, .rxRequeue,
+   .rxRead, .rxMatch (some 0) [], .rxSetEvent,
    .txGet, .txTest false, .txApply, .txSend,
-   .peerEmit false "reply" (some "m:p") false (some 1), .rxRead, .rxMatch (some 1), .rxSetEvent]
+   .peerEmit false "reply" (some "m:p") false (some 1), .rxRead, .rxMatch (some 1) [], .rxSetEvent]
 
 example : checkRun request2reply true traceGood
     (fun s => s.delivered.length == 3 && replyMatchesB request2reply s && noDoubleDeliveryB s
